@@ -41,9 +41,27 @@ _ARM = {"tree": None, "log": None, "tid": None}
 _slot_tree = Node.__dict__["_tree"]
 
 
+_FREE = {"tree": None, "hist": None, "ids": {}}     # free-running threads: one global history
+
+
 def _rec(tree, ev):
-    if tree is not None and tree is _ARM["tree"] and threading.get_ident() == _ARM["tid"]:
-        _ARM["log"].append(ev)
+    if tree is None:
+        return
+    if tree is _ARM["tree"]:
+        if threading.get_ident() == _ARM["tid"]:
+            _ARM["log"].append(ev)
+    elif tree is _FREE["tree"] and ev == R:
+        i = _FREE["ids"].get(threading.get_ident())
+        if i is not None:
+            h = _FREE["hist"]
+            if not h or h[-1] != (i, R):
+                h.append((i, R))
+
+
+def _free_log(ev):
+    i = _FREE["ids"].get(threading.get_ident())
+    if i is not None:
+        _FREE["hist"].append((i, ev))        # list.append is atomic: the history is a linearisation
 
 
 def _tree_of(node):
@@ -147,6 +165,27 @@ def guarded(fn, timeout):
         _STATE["deadlock_seen"] = True
         return False, None
     return True, box.get("res")
+
+
+class FreeLock:
+    """Wrapper that writes Acq (after it was granted) / Rel (before it is given up) of every registered
+    thread into the global history."""
+
+    def __init__(self, real):
+        self.real = real
+
+    def acquire(self, *a, **k):
+        ok = self.real.acquire(*a, **k)
+        if ok:
+            _free_log(A)
+        return ok
+
+    def release(self):
+        _free_log(L)
+        self.real.release()
+
+    def _is_owned(self):
+        return self.real._is_owned()
 
 
 def record(tree, fn):
@@ -276,6 +315,15 @@ def op_to_dotfile_path(tree, tmp):
     return _read_text(p)
 
 
+def op_filtered_none(tree, tmp):
+    return canon(tree.filtered(None))           # refused (ValueError) before anything is read
+
+
+def op_to_dotfile_fmt_stream(tree, tmp):
+    tree.to_dotfile(io.StringIO(), format="png")  # refused (RuntimeError: needs a path) before anything is read
+    return None
+
+
 def op_with(tree, tmp):
     with tree:
         return canon(tree)
@@ -294,7 +342,11 @@ OPS = {
     "to_dotfile": ("to_dotfile", op_to_dotfile),
     "to_dotfile_path": ("to_dotfile", op_to_dotfile_path),
     "with": ("with", op_with),
+    "filtered_none": ("filtered", op_filtered_none),
+    "to_dotfile_fmt_stream": ("to_dotfile", op_to_dotfile_fmt_stream),
 }
+#: refusing paths of the skeletons (no read, no lock): recorded traces only
+TRACE_ONLY_OPS = {"filtered_none", "to_dotfile_fmt_stream"}
 #: operations that fail on typed trees for reasons that belong to other properties (D21/D22/D24:
 #: typed copies); their lock trace is still checked, their results are not compared across states
 TYPED_RESULT_UNUSABLE = {"copy_pred", "filtered"}
@@ -598,13 +650,22 @@ class Prop:
         nests = [1, 2] if not thorough else [1, 2, 3, 5]
         for typed in (False, True):
             for op in OPS:
+                if op in TRACE_ONLY_OPS:
+                    continue
                 for nest in nests:
                     yield dict(k="owner", typed=typed, op=op, shape="mixed", nest=nest)
         parks = [(1, 1)] if not thorough else [(1, 1), (2, 1), (1, 3)]
         for typed in (False, True):
             for op in OPS:
+                if op in TRACE_ONLY_OPS:
+                    continue
                 for nw1, nw2 in parks:
                     yield dict(k="park", typed=typed, op=op, shape="mixed" if (nw1, nw2) == (1, 1) else "chain", nw1=nw1, nw2=nw2)
+        free_ops = ["copy", "copy_to", "to_dict_list", "save", "save_path", "to_dotfile", "with", "copy_to_shallow", "to_dotfile_path"]
+        for r in range(3 if not thorough else 24):
+            typed = bool(r % 2)
+            rops = [free_ops[(2 * r + i) % len(free_ops)] for i in range(2 + r % 2)]
+            yield dict(k="free", typed=typed, writers=1 + r % 2, sections=4, calls=5, readers=rops, n=r)
         # all schedules of small two-thread families
         fams = [([A, W, W, L], [A, R, R, L]), ([A, A, W, L, L], [A, R, L]), ([A, R, A, R, L, L], [A, W, L])]
         for fam in fams:
@@ -660,6 +721,8 @@ class Prop:
                 return self.run_park(desc, tmp)
             if k == "owner":
                 return self.run_owner(desc, tmp)
+            if k == "free":
+                return self.run_free(desc, tmp)
         finally:
             shutil.rmtree(tmp, ignore_errors=True)
         raise ValueError(k)
@@ -769,6 +832,107 @@ class Prop:
         coq = f"CPark {H.coq_text(label)} {H.coq_list(str(e) for e in tr)} {nw1} {nw2}"
         return Case(desc=desc, coq_input=coq, impl_obs=[trace_obs(tr), obs_run], oracle_fail=fail, nontrivial=R in tr,
                     key=H.digest(desc), stats=dict(kind="park", label=label, early=bool(early), result_compared=usable))
+
+    # --- free: free-running writers and readers; the recorded global history is replayed on the machine
+    def run_free(self, desc, tmp):
+        import re
+        import time
+
+        typed, nwr, sections, calls, rops = desc["typed"], desc["writers"], desc["sections"], desc["calls"], desc["readers"]
+        tree = build_tree(typed, "mixed")
+        tree._lock = FreeLock(tree._lock)
+        hist: list = []
+        ids: dict = {}
+        n = nwr + len(rops)
+        barrier = threading.Barrier(n)
+        results: list = [[] for _ in range(n)]
+        _FREE.update(tree=tree, hist=hist, ids=ids)
+
+        def add(name, j):
+            if typed:
+                tree.add(name, kind=f"K{name[1:]}")
+            else:
+                tree.add(name)
+            hist.append((j, W))
+
+        def writer(j):
+            ids[threading.get_ident()] = j
+            barrier.wait(5)
+            for sec in range(sections):
+                with tree:
+                    add(f"w{j}_{2 * sec}", j)
+                    time.sleep(0.0004)        # invite a thread switch in the middle of the critical section
+                    if sec % 2:
+                        with tree:            # nested section
+                            add(f"w{j}_{2 * sec + 1}", j)
+                    else:
+                        add(f"w{j}_{2 * sec + 1}", j)
+                time.sleep(0)
+
+        def reader(j, op):
+            ids[threading.get_ident()] = j
+            barrier.wait(5)
+            for _ in range(calls):
+                results[j].append(run_op(tree, op, tmp))
+                time.sleep(0.0002)
+
+        ths = [threading.Thread(target=writer, args=(j,), daemon=True) for j in range(nwr)]
+        ths += [threading.Thread(target=reader, args=(nwr + i, op), daemon=True) for i, op in enumerate(rops)]
+        for th in ths:
+            th.start()
+        alive = False
+        for th in ths:
+            th.join(T(15))
+            alive = alive or th.is_alive()
+        if alive:
+            _STATE["deadlock_seen"] = True
+        _FREE.update(tree=None, hist=None, ids={})
+        hist = list(hist)
+        ps = [[e for i, e in hist if i == j] for j in range(n)]
+        sched = [i for i, _ in hist]
+
+        def dedup(l):
+            return [x for k, x in enumerate(l) if k == 0 or l[k - 1] != x]
+
+        seen = []
+        fail = None
+        for j in range(nwr, n):
+            vs = []
+            for res in results[j]:
+                names = re.findall(r"w(\d+)_\d+", res)
+                vs.append(len(names))
+                for w in range(nwr):
+                    if names.count(str(w)) % 2 and fail is None:
+                        fail = (f"free: {rops[j - nwr]}: a snapshot contains an odd number of writer {w}'s nodes: "
+                                "it was taken in the middle of that writer's `with tree:` section")
+            if vs != sorted(vs) and fail is None:
+                fail = f"free: {rops[j - nwr]}: successive snapshots go back in time {vs}"
+            seen.append(dedup(vs))
+        holder, depth = None, 0
+        for k, (i, e) in enumerate(hist):
+            if e == A:
+                if holder not in (None, i) and fail is None:
+                    fail = f"free: event {k}: lock granted to thread {i} while thread {holder} owns it"
+                holder, depth = i, depth + 1
+            else:
+                if holder != i and fail is None:
+                    fail = f"free: event {k}: thread {i} does {EV_NAMES[e]} ({'reader ' + rops[i - nwr] if i >= nwr else 'writer'}) without owning the lock"
+                if e == L and holder == i:
+                    depth -= 1
+                    if depth == 0:
+                        holder = None
+        if alive and fail is None:
+            fail = "free: threads did not finish (deadlock)"
+        total = 2 * sections * nwr
+        if fail is None and any(len(results[j]) != calls for j in range(nwr, n)):
+            fail = "free: a reader did not complete its calls"
+        obs = [not alive, True, all(py_bracketed(p) for p in ps), seen]
+        coq = (f"CHist {H.coq_list(H.coq_list(str(e) for e in p) for p in ps)} {H.coq_list(str(t) for t in sched)} "
+               f"{H.coq_list(str(j) for j in range(nwr, n))}")
+        mid = sum(1 for vs in seen for v in vs if 0 < v < total)
+        return Case(desc=desc, coq_input=coq, impl_obs=obs, oracle_fail=fail, nontrivial=mid > 0,
+                    key=H.digest([ps, sched]), stats=dict(kind="free", events=min(len(hist) // 50 * 50, 1000),
+                                                          snapshots_between_sections=min(mid, 10)))
 
     # --- owner: nested `with tree:` + operation inside, contender probes
     def run_owner(self, desc, tmp):
